@@ -209,7 +209,7 @@ fn builder_updates(run: &mut Run, rng: &mut Rng, fmt: &str, src: &[u8], thorough
 }
 
 struct Variant {
-    name: &'static str,
+    name: String,
     craft: Craft,
     /// the rules of the statement hold for this variant
     legal: bool,
@@ -218,11 +218,11 @@ struct Variant {
 fn variants(pj: &[u8], qj: Option<&[u8]>, parent_label: &str, tag: u32) -> Vec<Variant> {
     let base = |k: u32| Craft { label: urn(tag + k), update: true, ingredients: vec![(pj.to_vec(), "p".into())], inception: "opened".into(), ..Default::default() };
     let mut v = vec![
-        Variant { name: "ok_plain", craft: base(1), legal: true },
-        Variant { name: "ok_published", craft: Craft { actions: vec![("c2pa.published".into(), None)], ..base(2) }, legal: true },
-        Variant { name: "ok_metadata", craft: Craft { actions: vec![("c2pa.edited.metadata".into(), None)], notes: vec![("org.verif.meta".into(), marker("m", "0"))], ..base(3) }, legal: true },
+        Variant { name: "ok_plain".into(), craft: base(1), legal: true },
+        Variant { name: "ok_published".into(), craft: Craft { actions: vec![("c2pa.published".into(), None)], ..base(2) }, legal: true },
+        Variant { name: "ok_metadata".into(), craft: Craft { actions: vec![("c2pa.edited.metadata".into(), None)], notes: vec![("org.verif.meta".into(), marker("m", "0"))], ..base(3) }, legal: true },
         Variant {
-            name: "ok_redacted",
+            name: "ok_redacted".into(),
             craft: Craft {
                 load_redactions: Some(vec![assertion_uri(parent_label, "org.verif.n1")]),
                 actions: vec![("c2pa.redacted".into(), Some(assertion_uri(parent_label, "org.verif.n1")))],
@@ -230,12 +230,11 @@ fn variants(pj: &[u8], qj: Option<&[u8]>, parent_label: &str, tag: u32) -> Vec<V
             },
             legal: true,
         },
-        Variant { name: "hard_binding", craft: Craft { data_hash: true, ..base(5) }, legal: false },
-        Variant { name: "no_ingredient", craft: Craft { ingredients: vec![], inception: "none".into(), actions: vec![("c2pa.published".into(), None)], ..base(6) }, legal: false },
-        Variant { name: "component_only", craft: Craft { ingredients: vec![(pj.to_vec(), "c".into())], inception: "none".into(), actions: vec![("c2pa.published".into(), None)], ..base(7) }, legal: false },
-        Variant { name: "input_only", craft: Craft { ingredients: vec![(pj.to_vec(), "i".into())], inception: "none".into(), actions: vec![("c2pa.published".into(), None)], ..base(8) }, legal: false },
-        Variant { name: "two_parents_same", craft: Craft { ingredients: vec![(pj.to_vec(), "p".into()), (pj.to_vec(), "p".into())], ..base(9) }, legal: false },
-        Variant { name: "thumbnail_one", craft: Craft { thumbnails: 1, ..base(11) }, legal: true },
+        Variant { name: "no_ingredient".into(), craft: Craft { ingredients: vec![], inception: "none".into(), actions: vec![("c2pa.published".into(), None)], ..base(6) }, legal: false },
+        Variant { name: "component_only".into(), craft: Craft { ingredients: vec![(pj.to_vec(), "c".into())], inception: "none".into(), actions: vec![("c2pa.published".into(), None)], ..base(7) }, legal: false },
+        Variant { name: "input_only".into(), craft: Craft { ingredients: vec![(pj.to_vec(), "i".into())], inception: "none".into(), actions: vec![("c2pa.published".into(), None)], ..base(8) }, legal: false },
+        Variant { name: "two_parents_same".into(), craft: Craft { ingredients: vec![(pj.to_vec(), "p".into()), (pj.to_vec(), "p".into())], ..base(9) }, legal: false },
+        Variant { name: "thumbnail_one".into(), craft: Craft { thumbnails: 1, ..base(11) }, legal: true },
     ];
     // (actions that other rules of verify_actions also reject — a second created/opened, placed
     // without ingredients — are left out: those rules are not part of this model)
@@ -243,21 +242,52 @@ fn variants(pj: &[u8], qj: Option<&[u8]>, parent_label: &str, tag: u32) -> Vec<V
         if act.contains(' ') {
             continue;
         }
-        v.push(Variant { name: "bad_action", craft: Craft { actions: vec![(act.to_string(), None)], ..base(20 + k as u32) }, legal: false });
+        v.push(Variant { name: "bad_action".into(), craft: Craft { actions: vec![(act.to_string(), None)], ..base(20 + k as u32) }, legal: false });
+    }
+    // every kind of hard binding `hash_assertions()` knows, alone and next to otherwise legal content
+    // (a version-1 BMFF hash cannot be added to a v2 claim: VersionCompatibility; `hash_assertions()`
+    // does not include the collection hash, so neither does the rule nor the model)
+    for (k, hk) in ["data", "boxes", "bmff.v2", "bmff.v3"].iter().enumerate() {
+        for with_content in [false, true] {
+            let mut c = base(40 + 2 * k as u32 + with_content as u32);
+            if *hk == "data" {
+                c.data_hash = true;
+            } else {
+                c.own_hashes = vec![hk.to_string()];
+            }
+            if with_content {
+                c.actions = vec![("c2pa.published".into(), None), ("c2pa.edited.metadata".into(), None)];
+                c.notes = vec![("org.verif.meta".into(), marker("m", "1"))];
+            }
+            v.push(Variant { name: format!("own_hard_binding:{hk}{}", if with_content { "+content" } else { "" }), craft: c, legal: false });
+        }
+    }
+    {
+        let mut c = base(60);
+        c.data_hash = true;
+        c.own_hashes = vec!["boxes".into(), "bmff.v3".into()];
+        v.push(Variant { name: "own_hard_binding:data+boxes+bmff.v3".into(), craft: c, legal: false });
     }
     if let Some(qj) = qj {
-        v.push(Variant { name: "two_parents_distinct", craft: Craft { ingredients: vec![(pj.to_vec(), "p".into()), (qj.to_vec(), "p".into())], ..base(12) }, legal: false });
+        v.push(Variant { name: "two_parents_distinct".into(), craft: Craft { ingredients: vec![(pj.to_vec(), "p".into()), (qj.to_vec(), "p".into())], ..base(12) }, legal: false });
     }
     v
 }
 
-fn crafted_updates(run: &mut Run, rng: &mut Rng, fmt: &str, parent_asset: &[u8], other_asset: Option<&[u8]>, depth_tag: &str, thorough: bool) {
+fn crafted_updates(run: &mut Run, rng: &mut Rng, fmt: &str, parent_asset: &[u8], other_asset: Option<&[u8]>, depth_tag: &str, thorough: bool, only_hash: bool) {
     let Ok(pj) = jumbf_of(fmt, parent_asset) else { return };
     let qj = other_asset.and_then(|o| jumbf_of(fmt, o).ok());
     let parent_label = read_asset(fmt, parent_asset).active.unwrap_or_default();
     // the base manifest label (the one holding the notes) is the first manifest of the store
     let note_owner = load_store(&pj).ok().and_then(|s| s.claims().first().map(|c| c.label().to_string())).unwrap_or(parent_label.clone());
-    for v in variants(&pj, qj.as_deref(), &note_owner, 0xC21_0000 + rng.below(0xF000) as u32 * 16) {
+    for v in variants(&pj, qj.as_deref(), &note_owner, 0xC21_0000 + rng.below(0xF000) as u32 * 128) {
+        if only_hash && !(v.name.starts_with("own_hard_binding") || v.name == "ok_plain") {
+            continue;
+        }
+        let vclass = match v.name.strip_prefix("own_hard_binding:") {
+            Some(k) => format!("update-violation-valid:own-hard-binding:{}", k.trim_end_matches("+content")),
+            None => "update-violation-valid".to_string(),
+        };
         let crafted = match guarded(|| craft(&v.craft, parent_asset)) {
             Ok(Ok(x)) => x,
             Ok(Err(e)) => {
@@ -277,7 +307,7 @@ fn crafted_updates(run: &mut Run, rng: &mut Rng, fmt: &str, parent_asset: &[u8],
             run.fail(idx, "legal-update-not-valid", format!("{kind}: crafted legal update manifest reads {} {:?}", r.state, r.failures));
         }
         if !v.legal && r.ok() {
-            run.fail(idx, "update-violation-valid", format!("{kind}: update manifest violating the rules reads {}", r.state));
+            run.fail(idx, &vclass, format!("{kind}: update manifest violating the rules reads {}", r.state));
         }
         // (b) embedded: the manifest store grows, the parent's exclusion must be re-based
         let mut out = Cursor::new(Vec::new());
@@ -289,7 +319,7 @@ fn crafted_updates(run: &mut Run, rng: &mut Rng, fmt: &str, parent_asset: &[u8],
                 run.fail(idx, "legal-update-not-valid", format!("{kind} embedded ({} -> {} bytes): reads {} {:?}", parent_asset.len(), emb.len(), re.state, re.failures));
             }
             if !v.legal && re.ok() {
-                run.fail(idx, "update-violation-valid", format!("{kind} embedded: reads {}", re.state));
+                run.fail(idx, &vclass, format!("{kind} embedded: reads {}", re.state));
             }
             if v.legal {
                 content_mutations(run, rng, idx, fmt, &emb, None, &kind, if thorough { 6 } else { 2 });
@@ -442,11 +472,11 @@ pub fn run(run: &mut Run, rng: &mut Rng) {
                 jpeg_pair = Some(pair.clone());
             }
             // crafted variants on top of the base manifest and on top of an update manifest
-            if *fmt != "video/mp4" || thorough {
-                crafted_updates(run, rng, fmt, &pair.0, None, &format!("base_{}", fmt.replace('/', "-")), thorough);
-            }
+            // BMFF in the quick tier: only the own-hard-binding variants (+ one legal control)
+            let bmff = matches!(*fmt, "video/mp4" | "image/avif" | "image/heic");
+            crafted_updates(run, rng, fmt, &pair.0, None, &format!("base_{}", fmt.replace('/', "-")), thorough, bmff && !thorough);
             if *fmt == "image/jpeg" || thorough {
-                crafted_updates(run, rng, fmt, &pair.1, Some(&pair.0), &format!("onupdate_{}", fmt.replace('/', "-")), thorough);
+                crafted_updates(run, rng, fmt, &pair.1, Some(&pair.0), &format!("onupdate_{}", fmt.replace('/', "-")), thorough, false);
             }
         }
     }
